@@ -14,4 +14,5 @@ pub mod arith_axioms {
         ensures #[trigger] v@.len() <= usize::MAX / 8,
     { }
 }
-broadcast use {arith_axioms::axiom_vec_char_len, arith_axioms::axiom_slice_char_len};
+// @broadcast arith_axioms::axiom_vec_char_len
+// @broadcast arith_axioms::axiom_slice_char_len
